@@ -159,4 +159,23 @@ func init() {
 		Assumptions: []string{"in-memory file system + typed encoding/binary codec + byte view of (*[N]byte)(unsafe.Pointer(&obj))", "stream validity as the importer produces it: >= 1 packet, non-decreasing timestamps, gaps < 2^32 us, payload indexes increasing, both addresses of one stream of equal length, distinct stream ids, distinct first source packets", "timestamps are concrete sample values (base 2023-11-14, offsets enumerated)"},
 		Outside: []string{"more than 2 streams / 3 packets per stream with symbolic content", "chunks above 2 bytes (packet splitting at 64 KiB)", "host-group overflow (16384 hosts)", "MarshalJSON"},
 	}
+
+	M := func(kv ...int) map[string]int {
+		keys := []string{"streams", "packets", "payload", "gaps", "files", "starts", "idxbases", "ids", "mergefiles", "addrmode", "saddrs", "dirs"}
+		m := map[string]int{}
+		for i, v := range kv {
+			m[keys[i]] = v
+		}
+		return m
+	}
+	registry["C07"] = CheckSpec{Property: "C07",
+		Harnesses: []HarnessSpec{
+			{Pkg: ix, Func: "ZZ_C07_Merge", Desc: "two files, one stream each, overlapping or distinct ids", Quick: tier(M(1, 1, 1, 1, 1, 2, 1, 2, 1)), Thorough: tier(M(1, 2, 1, 1, 2, 3, 2, 3, 1)),
+				Bounds: "input files written by the real writer; stream ids from a 2..3 element domain so overlap / shadowing is enumerated; addresses, ports, payload bytes symbolic; reference seconds of the files differ via start offsets; merged suffix enumerated"},
+			{Pkg: ix, Func: "ZZ_C07_Merge", Desc: "two files, up to two streams each", Quick: tier(M(2, 1, 0, 1, 1, 1, 1, 3, 1, 1, 1, 1)), Thorough: tier(M(2, 1, 1, 1, 1, 1, 1, 3, 1, 1, 2, 1))},
+			{Pkg: ix, Func: "ZZ_C07_Merge", Desc: "three files, suffix of 2 or 3 merged", Quick: tier(M(1, 1, 0, 1, 1, 1, 1, 2, 2, 1)), Thorough: tier(M(1, 1, 1, 1, 1, 2, 1, 3, 2, 1))},
+		},
+		Assumptions: []string{"as C01; clock = deterministic increasing instants (file names of merge outputs)", "oracle: the newest version of every id, compared field by field, payload and packet references included"},
+		Outside: []string{"merging an already merged output again", "search results over both stacks (C02)", "writer overflow paths", "more than 3 files"},
+	}
 }
